@@ -32,6 +32,18 @@ T0Txs == [b \in T0Blocks |->
 T0All == T0Blocks \ {"g"}
 T0Valid == { T0All, T0All \ {"b2"}, T0All \ {"b3"}, T0All \ {"a2"} }
 
+\* ---- tree T3: main a1-a2-a3; branch b1-b2 from genesis that continues as x3-x4 (x3 invalid) and as c3-c4 (valid):
+\* a failed reorganisation to ...-x4 must not keep the node from adopting ...-c4, which shares the prefix b1-b2
+T3Blocks == {"g", "a1", "a2", "a3", "b1", "b2", "x3", "x4", "c3", "c4"}
+T3Parent == [b \in T3Blocks \ {"g"} |->
+               CASE b = "a1" -> "g" [] b = "a2" -> "a1" [] b = "a3" -> "a2" [] b = "b1" -> "g" [] b = "b2" -> "b1"
+                 [] b = "x3" -> "b2" [] b = "x4" -> "x3" [] b = "c3" -> "b2" [] b = "c4" -> "c3"]
+T3Txs == [b \in T3Blocks |->
+               CASE b = "a1" -> {"t1"} [] b = "a2" -> {"t2"} [] b = "b1" -> {"t1"} [] b = "b2" -> {"t3"}
+                 [] b = "x3" -> {"t2"} [] b = "c3" -> {"t2"} [] b = "c4" -> {"t4"} [] OTHER -> {}]
+T3All == T3Blocks \ {"g"}
+T3Valid == { T3All \ {"x3"}, T3All }
+
 GenView == [valid |-> valid, store |-> store, hidx |-> hidx, best |-> best, txidx |-> txidx, rcpt |-> rcpt,
             sroot |-> sroot, savail |-> savail, orph |-> orph, bad |-> bad, lib |-> lib, arrivals |-> arrivals]
 GenLog == LogTransition(GenView, [act |-> lastAct', returned |-> returned'], GenView')
